@@ -6,6 +6,8 @@ pub const FAMILIES: [&str; 19] = [
     "revsorted", "collinear", "pow2", "huge", "tiny", "neartie", "euclid", "signed", "staircase",
     "negzero", "tiechain", "rowconst",
 ];
+/// families that are valid input only for some methods (never drawn blindly)
+pub const SPECIAL_FAMILIES: [&str; 3] = ["rampdips", "maxmag", "hugechain"];
 
 /// sizes next to the powers of two at which word / block / narrow-integer shortcuts change behaviour
 pub const BOUNDARY_SIZES: [u64; 18] = [31, 32, 33, 63, 64, 65, 127, 128, 129, 131, 132, 135, 191, 192, 193, 255, 256, 257];
@@ -114,6 +116,14 @@ pub fn matrix_f64(rng: &mut Rng, n: usize, fam: &str, wide: bool) -> Vec<f64> {
             for _ in 0..len {
                 if pmax > 0 && rng.below(pmax) == 0 { v.push(mx); } else { v.push(lo + rng.unit() * (hi - lo)); }
             }
+        }
+        "hugechain" => {
+            // collinear points in geometric progression whose largest coordinates are next to the
+            // largest finite value: one long nearest-neighbour chain, and the arithmetic updates
+            // (average, weighted) overflow to +inf on the far entries - still a finite input
+            let top = if wide { f64::MAX } else { f32::MAX as f64 };
+            let x: Vec<f64> = (0..n).map(|i| 0.9 * top * 1.25f64.powi(-(i as i32))).collect();
+            for (i, j) in pairs(n) { v.push((x[i] - x[j]).abs()); }
         }
         "rampdips" => {
             // points on a line with growing gaps, except a close pair every k-th point: the raw
